@@ -17,6 +17,7 @@ def recv_field(fl, call):
 
 
 def run(db, chk):
+    marker_freshness_rule(db, chk)
     fns = [f for f in db.by_crate["gix_odb"] if f.file == FILE and f.kind != "promoted"]
     chk.floor("functions in load_index.rs", len(fns), 25)
     n_store = n_repl = n_atomic = 0
@@ -114,3 +115,43 @@ def run(db, chk):
                             r_new = set().union(*[g.reach_from(t, avoid={cmp["block"]}) for _, t in newer])
                             ok = ok or s.block not in r_new
             chk.ob("load-rechecks-generation", "%s files.store@%d" % (g.name.split("::")[-1], s.line), ok, "loading an index into its slot must be on the not-newer edge of the generation re-check", s.where(), key="load-rechecks-generation|%s" % g.name)
+
+
+def marker_freshness_rule(db, chk):
+    """reader side: a lookup may replace its snapshot while it loops (after a refresh); every marker it hands to load_pack / load_one_index must
+    be read from the snapshot inside that same loop iteration - a marker captured before the loop goes stale when the generation changes and makes
+    load_pack refuse packs that are on disk."""
+    fs = [f for f in db.by_crate["gix_odb"] if "::dynamic::find::" in f.name and f.kind != "promoted"]
+    n = 0
+    for f in fs:
+        fl = Flow(f)
+        for c in f.calls():
+            if not c.is_(r"::load_pack$|::load_one_index$") or len(c.args) < 3:
+                continue
+            loops_ = [l for l in f.loops() if c.block in l["body"]]
+            if not loops_:
+                continue
+            lp_ = max(loops_, key=lambda l: len(l["body"]))     # the outermost retry loop
+            marg = c.args[-1]
+            # definition sites of the marker value: reads of `<snapshot>.marker`
+            reads = []
+            seen, work = set(), [marg["p"][0]] if "p" in marg else []
+            while work:
+                l = work.pop()
+                if l in seen:
+                    continue
+                seen.add(l)
+                for bi, si, pl, rv, ln, mc in f.assigns():
+                    if pl == [l] and rv[0] == "use" and "p" in rv[1]:
+                        if ".marker" in [x for x in rv[1]["p"][1:] if isinstance(x, str)]:
+                            reads.append((bi, ln))
+                        elif len(rv[1]["p"]) == 1:
+                            work.append(rv[1]["p"][0])
+            if not reads:
+                continue
+            n += 1
+            stale = [(bi, ln) for bi, ln in reads if bi not in lp_["body"]]
+            chk.ob("marker-read-inside-retry-loop", "%s %s@%d" % (f.name.split("::")[-1], c.name.split("::")[-1], c.line), not stale,
+                   "the slot-map marker passed here is read from the snapshot before the retry loop (line %s) although the loop can replace the snapshot: after a generation change load_pack rejects every pack of the new snapshot" % [ln for _, ln in stale],
+                   c.where(), key="marker-fresh|%s|%s" % (f.name.split("::")[-1], c.name.split("::")[-1]))
+    chk.floor("load_pack / load_one_index calls inside retry loops of dynamic::find", n, 2)
